@@ -265,7 +265,63 @@ def re_match(ex, st, a, ins):
     return (z3.InRe(a[1], r), nilerr())
 
 
-REGEXP = {'regexp.MatchString': re_match}
+def const_pattern(x):
+    pat = z3.simplify(x)
+    if not z3.is_string_value(pat): return None
+    return re.sub(r'\\u\{([0-9a-fA-F]+)\}', lambda m: chr(int(m.group(1), 16)), pat.as_string())
+
+
+def re_compile(ex, st, a, ins):
+    p = const_pattern(a[0])
+    if p is None: raise Unsupported('regexp.MustCompile of non-constant pattern')
+    o = Ptr(st.alloc(Opaque('regexp', pattern=p)))
+    if ins.get('call', {}).get('callee', '').endswith('.Compile'): return (o, nilerr())
+    return o
+
+
+def re_of(ex, st, p):
+    v = st.heap.get(p.obj) if isinstance(p, Ptr) else None
+    if isinstance(v, Opaque) and v.what == 'regexp': return v.pattern
+    return None
+
+
+def re_method_match(ex, st, a, ins):
+    p = re_of(ex, st, a[0])
+    if p is None: return z3.Bool(fresh_name(st, 'regexp.match'))
+    subj = a[1].s if isinstance(a[1], BytesV) else a[1]
+    try: return z3.InRe(subj, rx.translate(p))
+    except Exception as e: raise Unsupported(f'regexp {p!r}: {e}')
+
+
+def fresh_name(st, what):
+    st.counter += 1
+    return f'{what}!{st.counter}'
+
+
+def re_find_submatch(ex, st, a, ins):
+    """FindStringSubmatch: nil when there is no match, else 1+ngroups strings (group contents over-approximated as arbitrary)"""
+    p = re_of(ex, st, a[0]); subj = a[1]
+    if p is None:
+        st.counter += 1
+        return SliceV(st.alloc(LazyArr(ex.ir.typeid('string'), f'submatch!{st.counter}')), 0, None, None)
+    try:
+        import re._parser as sp
+    except ImportError:
+        import sre_parse as sp
+    ng = sp.parse(p).state.groups
+    try: R = rx.translate(p)
+    except Exception as e: raise Unsupported(f'regexp {p!r}: {e}')
+    def hit(s2):
+        s2.counter += 1
+        vals = [subj if (p.startswith('^') and p.endswith('$')) else z3.String(f'match0!{s2.counter}')] + [z3.String(f'group{i}!{s2.counter}') for i in range(1, ng)]
+        for v in vals[1:]: s2.pc.append(z3.Contains(subj, v))
+        return ex.mkslice(s2, vals)
+    return fork_results(ex, st, ins, [(z3.Not(z3.InRe(subj, R)), NILSLICE()), (z3.InRe(subj, R), hit)])
+
+
+REGEXP = {'regexp.MatchString': re_match, 'regexp.MustCompile': re_compile, 'regexp.Compile': re_compile,
+          '(*regexp.Regexp).MatchString': re_method_match, '(*regexp.Regexp).Match': re_method_match,
+          '(*regexp.Regexp).FindStringSubmatch': re_find_submatch}
 
 
 # ---------------------------------------------------------------------------------------------- sync
